@@ -82,6 +82,9 @@ type Options struct {
 	Dir    string
 	// Genesis customisation.
 	Mutate func(gs map[string]json.RawMessage)
+	// AolGenesis, when set, is installed as the aol section of the genesis and the AOL model
+	// is derived from it (owners of any legal address length, reachable only through genesis).
+	AolGenesis json.RawMessage
 	// Also enables the state-agreement oracles of other properties (used by C08/C09/C10/C19,
 	// whose statements quantify over "every AOL, DID and PNFT query").
 	Also map[string]bool
@@ -156,8 +159,15 @@ func New(opt Options) (*World, error) {
 		db = d
 	}
 	g := simnet.GenesisOptions{Accounts: accts, Previous: opt.Previous}
-	if opt.Mutate != nil {
-		g.Mutate = func(_ func(interface{}) []byte, gs map[string]json.RawMessage) { opt.Mutate(gs) }
+	if opt.Mutate != nil || opt.AolGenesis != nil {
+		g.Mutate = func(_ func(interface{}) []byte, gs map[string]json.RawMessage) {
+			if opt.AolGenesis != nil {
+				gs["aol"] = opt.AolGenesis
+			}
+			if opt.Mutate != nil {
+				opt.Mutate(gs)
+			}
+		}
 	}
 	c, err := simnet.NewChain(db, opt.Dir, g)
 	if err != nil {
@@ -167,6 +177,12 @@ func New(opt Options) (*World, error) {
 		AOL: NewAolModel(), DID: NewDidModel(), PNFT: NewPnftModel(), Authz: map[string]bool{},
 		Labels: map[string]int{}, Excluded: map[string]int{}, Obs: map[string]int{}, Keys: DIDKeys()}
 	w.pendDT = 5
+	if opt.AolGenesis != nil {
+		if err := w.AOL.LoadGenesis(c.App.AppCodec(), opt.AolGenesis); err != nil {
+			return nil, err
+		}
+		w.Label("aol genesis with generated owners")
+	}
 	w.snap()
 	if opt.Twin {
 		if err := w.newTwin(); err != nil {
@@ -705,6 +721,9 @@ func (w *World) ShapeString() string { return strings.Join(w.Shape, ",") }
 // WriteReplay stores the history so that it can be re-executed without the generator.
 func (w *World) WriteReplay(path string, extra map[string]interface{}) error {
 	doc := map[string]interface{}{"property": w.Opt.Prop, "kind": "history", "steps": w.History}
+	if w.Opt.AolGenesis != nil {
+		doc["aol_genesis"] = w.Opt.AolGenesis
+	}
 	for k, v := range extra {
 		doc[k] = v
 	}
